@@ -12,6 +12,7 @@
        forall sc ps, prim_params_in_image sc ps = true -> rt_prim_params sc ps = Ok ps
    is not.  Not modelled at all: the depth-first emission order of modules / external modules. *)
 Require Import Hdl21.Base.PyInt Hdl21.Base.Design Hdl21.Base.Package Hdl21.Base.Dec Hdl21.Model.C11RoundTrip Hdl21.Proofs.C11Proofs.
+Require Import Hdl21.Model.C11Share Hdl21.Proofs.C11ShareProofs.
 Require Import Hdl21Gen.PrefixTable Hdl21Gen.PrefixMaps Hdl21Gen.Primitives Hdl21Gen.C11Maps.
 From Coq Require Import String.
 Open Scope string_scope.
@@ -211,3 +212,88 @@ Example C11_repaired_behaviour :
   (sc <- schema_of "IdealResistor" ;; rt_prim_params sc [("r", VLit "1e3")]) = Ok [("r", VLit "1e3")] /\
   (sc <- schema_of "PulseVoltageSource" ;; rt_prim_params sc [("td", VPre "NANO" (NInt 1))]) = Ok [("td", VPre "NANO" (NInt 1))].
 Proof. vm_compute. repeat split; reflexivity. Qed.
+
+(* ================================================================================================================
+   Strengthening round: the importer is a stateful object; what an instance leaves behind must not reach a later one.
+
+   Model/C11Share.v splits rt_ref into the two halves the code has — imp_ref (import_instance: a Call holding Python
+   values) and exp_call (export_instance on that Call) — and defines rt_pkg_s keq, the importer that keeps its Calls for
+   the whole package and gives a later instance the EARLIER Call whenever `keq earlier new` holds. *)
+
+(* The state the importer of the tree under test keeps between instances is exactly what the model threads: the two
+   tables `modules` (earlier) and `ext_modules` (exts), beside the package and the namespace it returns; importing.py has
+   no memoising decorator and no module-level container (regenerated from the source by tools/translators/11_proto_maps.py). *)
+Theorem C11_importer_state : importer_state = ["ext_modules"; "modules"; "ns"; "pkg"] /\ importer_memo = [].
+Proof. split; reflexivity. Qed.
+Print Assumptions C11_importer_state.
+
+(* rt_ref is export after import (the two halves report a different FIRST error; accepted results are the same) *)
+Theorem C11_ref_is_import_then_export : forall exts earlier r ps x,
+  rt_ref exts earlier r ps = Ok x <-> (c <- imp_ref exts earlier r ps ;; exp_call c) = Ok x.
+Proof. intros. apply same_ok_iff. apply rt_ref_split_ok. Qed.
+Print Assumptions C11_ref_is_import_then_export.
+
+(* Sharing Calls is harmless for EVERY package exactly under this condition on the key: Calls it identifies are exported
+   identically.  Then the sharing importer accepts the same packages and returns the same packages as the model. *)
+Theorem C11_sharing_sound : forall keq, (forall a b, keq a b = true -> exp_call a = exp_call b) ->
+  forall p q, rt_pkg_s keq p = Ok q <-> rt_pkg p = Ok q.
+Proof. exact sharing_sound. Qed.
+Print Assumptions C11_sharing_sound.
+
+(* the importer that never shares (the tree under test) is the model; so is one that shares structurally equal Calls *)
+Theorem C11_no_sharing_is_model : forall p q, rt_pkg_s (fun _ _ => false) p = Ok q <-> rt_pkg p = Ok q.
+Proof. exact no_sharing_is_rt_pkg. Qed.
+Theorem C11_struct_sharing_harmless : forall p q, rt_pkg_s call_struct_eqb p = Ok q <-> rt_pkg p = Ok q.
+Proof. exact struct_sharing_harmless. Qed.
+Print Assumptions C11_struct_sharing_harmless.
+
+(* ... and for ANY key: two instances whose Calls it identifies, the first of which survives on its own — the second comes
+   back with the reference and the parameters of the first; if those are not its own, the module does not survive. *)
+Theorem C11_sharing_takes_first : forall keq exts earlier sigs i1 i2 c1 c2 l cc',
+  imp_ref exts earlier (ci_ref i1) (ci_params i1) = Ok c1 ->
+  imp_ref exts earlier (ci_ref i2) (ci_params i2) = Ok c2 ->
+  keq c1 c2 = true ->
+  rt_inst exts earlier sigs i1 = Ok i1 ->
+  rt_insts_s keq exts earlier sigs [] [i1; i2] = Ok (l, cc') ->
+  exists i2', l = [i1; i2'] /\ (ci_ref i2', ci_params i2') = (ci_ref i1, ci_params i1).
+Proof. exact sharing_takes_first. Qed.
+Theorem C11_sharing_unsound : forall keq exts earlier sigs i1 i2 c1 c2 cc',
+  imp_ref exts earlier (ci_ref i1) (ci_params i1) = Ok c1 ->
+  imp_ref exts earlier (ci_ref i2) (ci_params i2) = Ok c2 ->
+  keq c1 c2 = true ->
+  rt_inst exts earlier sigs i1 = Ok i1 ->
+  (ci_ref i2, ci_params i2) <> (ci_ref i1, ci_params i1) ->
+  rt_insts_s keq exts earlier sigs [] [i1; i2] <> Ok ([i1; i2], cc').
+Proof. exact sharing_unsound. Qed.
+Print Assumptions C11_sharing_unsound.
+
+(* Python's == on imported parameter values (Model/C11Share.v:py_eq; validated against the live == by the `pyeq` stream)
+   is NOT such a key: 2 == 2.0, 2 == 2 UNIT == 0.002 KILO, 1500 MILLI == 1.5 UNIT == 1.50 UNIT, 0.0 == -0.0 are pairs of
+   Python-equal Calls, each exported as itself and differently from the other; a cache of Calls keyed by
+   ((domain, name), tuple(params.items())) turns the package of the seeded demonstration into another one. *)
+Theorem C11_py_eq_not_export_sound : exists a b, call_py_eq a b = true /\ exp_call a <> exp_call b.
+Proof. exact py_eq_not_export_sound. Qed.
+Theorem C11_py_twins : forallb (fun w => py_twin (fst w) (snd w)) py_twin_witnesses = true /\ List.length py_twin_witnesses = 9%nat.
+Proof. split; [exact py_twins_all | reflexivity]. Qed.
+Theorem C11_py_sharing_refuted : exists p, rt_pkg p = Ok p /\ rt_pkg_s call_py_eq p <> Ok p.
+Proof. exact py_sharing_refuted. Qed.
+Print Assumptions C11_py_sharing_refuted.
+
+(* non-vacuity: the hypotheses of C11_sharing_unsound hold for the two spellings of 2 on one external module *)
+Example C11_sharing_unsound_nonvacuous :
+  let i1 := twin_inst "x0" [("m", VInt 2)] in
+  let i2 := twin_inst "x1" [("m", VDbl "0x1.0000000000000p+1")] in
+  let sigs := [("a", 1); ("b", 1)] in
+  match imp_ref [twin_ext] [] (ci_ref i1) (ci_params i1), imp_ref [twin_ext] [] (ci_ref i2) (ci_params i2) with
+  | Ok c1, Ok c2 => call_py_eq c1 c2 = true /\ rt_inst [twin_ext] [] sigs i1 = Ok i1 /\ rt_inst [twin_ext] [] sigs i2 = Ok i2 /\
+                    pvalue_eqb (VInt 2) (VDbl "0x1.0000000000000p+1") = false
+  | _, _ => False
+  end.
+Proof. vm_compute. repeat split; reflexivity. Qed.
+
+Example C11_struct_key_separates_twins :
+  match call_of [("m", VInt 2)], call_of [("m", VDbl "0x1.0000000000000p+1")] with
+  | Ok a, Ok b => call_struct_eqb a b = false /\ call_struct_eqb a a = true
+  | _, _ => False
+  end.
+Proof. vm_compute. split; reflexivity. Qed.
